@@ -211,15 +211,15 @@ def run_shape(shape):
         del2 = deleted if op == "merge" else True
         tag = f"{op}{list(map(list, arg)) if op == 'merge' else list(arg)}{'/None' if use_none else ''}"
         for path in eng.explore(body):
-            acc.paths += 1
+            acc.begin(prover, path)
             cexinfo = {"op": op, "arg": [list(a) for a in arg] if op == "merge" else list(arg), "use_none": use_none}
             if path.kind == "exc":
                 acc.structural(f"no_exception:{tag}", False, detail=repr(path.value) + (path.tb or "")[-400:],
                                cex=dict(cexinfo, kind="exception", exc=type(path.value).__name__))
                 nviol += 1
                 continue
-            if acc.reachable is None:
-                acc.reachable = prover.satisfiable(path.premises) == "sat"
+            if acc.reachable is not True:
+                acc.reach(prover.satisfiable(path.premises))
             R, il2 = path.value
             try:
                 il2c = [[int(x) for x in g] for g in il2]
@@ -295,14 +295,14 @@ def run_cut(shape):
         return None
 
     for path in eng.explore(body):
-        acc.paths += 1
+        acc.begin(prover, path)
         cexinfo = {"lower": shape["lower"], "upper": shape["upper"]}
         if path.kind == "exc":
             acc.structural("no_exception", False, detail=repr(path.value) + (path.tb or "")[-400:],
                            cex=dict(cexinfo, kind="exception", exc=type(path.value).__name__, model=_model_of(prover, path)))
             continue
-        if acc.reachable is None:
-            acc.reachable = prover.satisfiable(path.premises) == "sat"
+        if acc.reachable is not True:
+            acc.reach(prover.satisfiable(path.premises))
         R, il = path.value
         # specification from the statement, evaluated under this path's decisions
         P2 = [[i] for i in range(n)]
